@@ -30,14 +30,17 @@ RX90 = refsem.rotation([1, 0, 0], 90.0)
 
 def motions():
     M = refsem.Motion
+    # several motions share a displacement (and differ by the rotation) or share a rotation (and differ by
+    # the displacement): a transformation cache keyed on only a part of the transformation collides
     return {
         'none': None,
         't': M((1.0, -0.5, 0.0)),
-        'rz90': M((0.5, 1.0, 0.0), RZ90.T),
+        'rz90': M((1.0, -0.5, 0.0), RZ90.T),
         'rz30': M((-1.0, 0.5, 0.25), RZ30.T),
-        'rx90': M((0.0, 0.5, -0.5), RX90.T),
+        'rx90': M((-1.0, 0.5, 0.25), RX90.T),
         't2': M((-2.0, 1.5, 0.5)),
         'id': M((0.0, 0.0, 0.0)),          # an explicit identity transformation is still a transformation
+        'rz90b': M((-2.0, 1.5, 0.5), RZ90.T),
     }
 
 
@@ -54,7 +57,7 @@ def make_tr(deck, key, spelling, number):
 
 
 SPELL = ['inline', 'number', 'star', 'inline3', 'numstar']
-TKEYS = ['none', 't', 'rz90', 'rz30', 'rx90', 't2', 'id']
+TKEYS = ['none', 't', 'rz90', 'rz30', 'rx90', 't2', 'id', 'rz90b']
 
 
 def build(ch, with_options=True):
